@@ -194,6 +194,7 @@ func c12HasNext(v bool, useNil bool) *bool {
 type c12Exec struct {
 	n      int // payloads
 	reject bool
+	stopped  bool
 	cancelAt int                // >0: the request context is cancelled while the cancelAt-th payload is being produced
 	cancel   context.CancelFunc // (the payload is still returned: the resolvers had finished)
 	gate   bool // payload production is a schedule gate (see c12Writer.gate)
@@ -218,21 +219,25 @@ func (e *c12Exec) DispatchOperation(ctx context.Context, rc *graphql.OperationCo
 		if e.yield {
 			zzsym.Preempt()
 		}
-		if k >= e.n {
+		if k >= e.n || e.stopped {
 			return nil
 		}
 		k++
-		if e.cancelAt == k && e.cancel != nil {
-			e.cancel()
-		}
 		if !zzsym.Symbolic() {
 			// natively: give the 1ms tickers a chance to fire between payloads; incremental payloads
 			// arrive while the (slow) client is still being written to
 			if e.inc {
 				zzsym.Jitter(14000) // 0..14 ms: payloads land before, inside and after the flushes of a slow client
 			} else {
-				time.Sleep(3 * time.Millisecond)
+				time.Sleep(2 * time.Millisecond)
+				zzsym.Jitter(2000) // 2..4 ms: ticks of a 1 ms timer land before, at and after the moment the payload is ready
 			}
+		}
+		if e.cancelAt == k && e.cancel != nil {
+			// the client goes away while this payload is being produced: it is the last one, the
+			// executor's response function ends the sequence at once
+			e.cancel()
+			e.stopped = true
 		}
 		if e.inc {
 			if k == 1 {
@@ -394,7 +399,11 @@ func Harness_C05_streams() {
 	r.Header.Set("Content-Type", "application/json")
 	if sse {
 		r.Header.Set("Accept", "text/event-stream")
-		SSE{KeepAlivePingInterval: time.Millisecond}.Do(w, r, ex)
+		interval := time.Millisecond
+		if !zzsym.Symbolic() {
+			interval = 20 * time.Microsecond // natively: a tick is pending at (almost) every instant
+		}
+		SSE{KeepAlivePingInterval: interval}.Do(w, r, ex)
 	} else {
 		r.Header.Set("Accept", "multipart/mixed")
 		MultipartMixed{}.Do(w, r, ex)
